@@ -13,6 +13,7 @@ mod lossy;
 mod pgp;
 mod rel;
 mod relspec;
+mod sat;
 mod total;
 mod wrap;
 mod util;
@@ -51,6 +52,9 @@ fn dispatch(op: &str, args: &[&str]) -> Option<Resp> {
     if let Some(r) = codec::handle(op, args) {
         return Some(r);
     }
+    if let Some(r) = sat::handle(op, args) {
+        return Some(r);
+    }
     if let Some(r) = cpr::handle(op, args) {
         return Some(r);
     }
@@ -65,6 +69,7 @@ fn dispatch(op: &str, args: &[&str]) -> Option<Resp> {
 
 fn generate(prop: &str, tier: &str, seed: u64, out: &mut util::Out) {
     match prop {
+        "C12" => sat::generate_c12(tier, seed, out),
         "C17" => cpr::generate_c17(tier, seed, out),
         "C18" => codec::generate_c18(tier, seed, out),
         "C19" => pgp::generate(tier, seed, out),
